@@ -188,6 +188,11 @@ def run(ctx):
                                 for (p_, q_) in ((f[2], f[3]), (f[3], f[2])):
                                     if p_ == ("discr", ("call", st_key, (("ref", pl),))) and q_[0] == "discr" and q_[1][0] == "cs" and q_[1][2] == "Unused":
                                         skip_ok = True
+                                    # `!matches!(section_type(), Unused)`: the discriminant compared with Unused's number (compiler's table)
+                                    ua = F.adts.get("multiboot2::elf_sections::ElfSectionType") or {}
+                                    ud = [v_.get("discr") for v_ in ua.get("variants", []) if v_.get("name") == "Unused"]
+                                    if p_ == ("discr", ("call", st_key, (("ref", pl),))) and len(ud) == 1 and q_ == ("c", ud[0]):
+                                        skip_ok = True
                             x = f
                             if x[0] == "istrue" and x[1][0] == "call" and "PartialEq>::ne" in str(x[1][1]):
                                 a0, a1 = x[1][2]
